@@ -35,4 +35,14 @@ theorem residuals2_honest (verts pts : List (V2 α)) (x0 : α × α × α) (ops 
     let s := pb.run (pb.refresh x0) ops
     pb.residuals s = pb.points.map fun p => GenRs.residual2 (pb.move s.x p) (pb.closest (pb.move s.x p)).1 :=
   C07.final_residuals_honest (problem2 verts pts) x0 ops
+/-! ### which rows the solver is handed in each distance mode (regenerated dispatch of `jacobian()`; the two row
+functions appear as tags) -/
+
+/-- the rows match the residuals: distance to the closest POINT → the point-distance rows (of the closest point),
+    distance to the closest PLANE → the plane-distance rows (of the closest surface point) — never the other way round,
+    never the same rows for both -/
+theorem jacobian_rows_match_the_residual_mode (tp tq : Nat) :
+    GenRs.jacobian_dispatch3 DistMode.toPoint tp tq = tp ∧ GenRs.jacobian_dispatch3 DistMode.toPlane tp tq = tq :=
+  ⟨rfl, rfl⟩
+
 end C07U
